@@ -51,18 +51,18 @@ def content(cls, size, filler):
 
 CLASSES = ["zero", "ff", "cycle", "lf", "crlf", "mixed", "badutf8", "trailing", "markup", "nonl"]
 
-NAMES = [b"plain.txt", b"sp ace.txt", b"a&b?c#d.txt", b"%41.txt", b"\xae.txt", b"noext", b"x.html", b"x.bin", b"x.gif", b"x.txt.gz", b"UP.TXT", b"x.tar.gz", b"x.tgz", b"dot.in.name.txt", b"x.txt.bz2", b"x.unknownext", b"x.pdf.Z"]
+NAMES = [b"dump.bz2", b"x.xz", b"page.html.br", b"plain.txt", b"sp ace.txt", b"a&b?c#d.txt", b"%41.txt", b"\xae.txt", b"noext", b"x.html", b"x.bin", b"x.gif", b"x.txt.gz", b"UP.TXT", b"x.tar.gz", b"x.tgz", b"dot.in.name.txt", b"x.txt.bz2", b"x.unknownext", b"x.pdf.Z"]
 
 PROTOS = ["gopher", "gopherp", "http", "http_head", "wap", "gemini", "spartan", "sgopher", "sgopherp", "https"]
 
 # --- independent reading of the configured MIME tables --------------------------------
 
-_mime = None
+_mime = {}
+VARIANT_EXTRA = b"application/x-bzip2 bz2\napplication/x-xz xz\napplication/x-site-br br\n"
 
 
-def _mime_tables():
-    global _mime
-    if _mime is None:
+def _mime_tables(variant=False):
+    if variant not in _mime:
         ext = {}
         with open(rig.MIME_TYPES, "rb") as f:
             for ln in f:
@@ -72,14 +72,20 @@ def _mime_tables():
                         ext[b"." + e] = ln[0].decode()
         # the [pygopherd] encoding option: Python's defaults plus .bz2 and .tal
         enc = {b".gz": "gzip", b".Z": "compress", b".bz2": "bzip2", b".xz": "xz", b".br": "br", b".tal": "tal.TALFileHandler"}
+        if variant:
+            # a site that REPLACES the encodings table and gives the other suffixes types of their own
+            enc = {b".gz": "gzip"}
+            for ln in VARIANT_EXTRA.splitlines():
+                t, e = ln.split()
+                ext[b"." + e] = t.decode()
         suffix = {b".svgz": b".svg.gz", b".tgz": b".tar.gz", b".taz": b".tar.gz", b".tz": b".tar.gz", b".tbz2": b".tar.bz2", b".txz": b".tar.xz"}
-        _mime = (ext, enc, suffix)
-    return _mime
+        _mime[variant] = (ext, enc, suffix)
+    return _mime[variant]
 
 
-def ref_mime(name: bytes):
+def ref_mime(name: bytes, variant=False):
     """-> (type of the data, encoding) per mime.types + encoding map; default text/plain."""
-    ext, enc, suffix = _mime_tables()
+    ext, enc, suffix = _mime_tables(variant)
     base, e = os.path.splitext(name)
     while e in suffix:
         base, e = os.path.splitext(base + suffix[e])
@@ -92,7 +98,8 @@ def ref_mime(name: bytes):
 
 
 def expected_type(name: bytes, handlers: str):
-    t, encoding = ref_mime(name)
+    variant = handlers == "variant"
+    t, encoding = ref_mime(name, variant)
     if encoding:
         if handlers == "full" and encoding in ("gzip", "bzip2", "compress") and t:
             return t, True  # decompressed on the fly
@@ -213,6 +220,20 @@ def _pack(name, data):
     return data
 
 
+def _make_world(handlers, spec=None):
+    if handlers != "variant":
+        return rig.World(spec or {}, handlers=handlers, cachetime=0, tag="c04")
+    d = rig.fresh_dir("c04mime")
+    import os as _os
+
+    mt = _os.path.join(d, "mime.types")
+    with open(rig.MIME_TYPES, "rb") as f:
+        base = f.read()
+    with open(mt, "wb") as f:
+        f.write(base + b"\n" + VARIANT_EXTRA)
+    return rig.World(spec or {}, handlers="default", cachetime=0, tag="c04", pygopherd__mimetypes=mt, pygopherd__encoding="[('.gz', 'gzip')]")
+
+
 def _headers_of(out):
     try:
         return parsers.split_http(out)[1]
@@ -224,11 +245,11 @@ def _shard(shard, seed, tier):
     part = core.Partial()
     handlers, items = shard
     filler = seed % 251
-    w = rig.World({}, handlers=handlers, cachetime=0, tag="c04")
+    w = _make_world(handlers)
     try:
         for cls, size, name in items:
             data = content(cls, size, filler)
-            if name.endswith(b".Z") and handlers == "full":
+            if name.endswith(b".Z") and handlers in ("full", "variant"):
                 continue  # no way to produce valid compress(1) data here; covered under the default list
             data = _pack(name, data)
             p = os.path.join(os.fsencode(w.root), name)
@@ -340,7 +361,7 @@ def _shard_short(shard, seed, tier):
 def replay(case):
     global _current_chooser
     if case["kind"] == "doc":
-        w = rig.World({}, handlers=case["handlers"], cachetime=0, tag="c04r")
+        w = _make_world(case["handlers"])
         try:
             name = case["name"]
             data = content(case["cls"], case["size"], case["filler"])
@@ -386,6 +407,9 @@ def run(ck):
     for handlers in ("default", "full"):
         for ch in core.chunks(items, core.NPROC):
             shards.append((handlers, ch))
+    vitems = [(cls, size, name) for cls, size, name in items if cls in ("lf", "cycle") and size in (5, 4097, 300, 8192)]
+    for ch in core.chunks(vitems, 4):
+        shards.append(("variant", ch))
     ck.pmap(_shard, shards)
     bound = 2 if ck.tier == "quick" else 3
     ck.pmap(_shard_short, [(p, s, bound) for p in ("gopher", "gopherp", "http", "gemini", "wap") for s in (2 * BLOCK + 7, 3 * BLOCK, BLOCK - 1)])
